@@ -18,11 +18,11 @@ open Gen
 
 theorem issc_closed (w wp Hs : ℝ) :
     isscSpectrum w wp Hs = 5 / 16 * Hs * Hs * (wp / w) ^ 4 / w * Real.exp (-(5 / 4) * (wp / w) ^ 4) := by
-  unfold isscSpectrum; simp only [lit_real, npow_real, exp_real]; norm_num
+  unfold isscSpectrum; simp only [lit_real, npow_real, exp_real, eqb_exp_zero', cond_false]; norm_num
 
 theorem pm_closed (w Uw al be g : ℝ) :
     piersonMoskowitzSpectrum w Uw al be g = al * g * g / w ^ 5 * Real.exp (-be * (g / Uw / w) ^ 4) := by
-  unfold piersonMoskowitzSpectrum; simp only [npow_real, exp_real]
+  unfold piersonMoskowitzSpectrum; simp only [npow_real, exp_real, eqb_exp_lit_zero, cond_false]
 
 theorem gaussian_closed (w wp Hs sg : ℝ) :
     gaussianSwellSpectrum w wp Hs sg =
@@ -37,7 +37,7 @@ theorem jonswap_closed (w wp al be gm g : ℝ) :
     jonswapSpectrum w wp al be gm g =
       al * g * g / w ^ 5 * Real.exp (-be * (wp / w) ^ 4) * gm ^ (jonswapR w wp) := by
   unfold jonswapSpectrum jonswapR
-  simp only [lit_real, npow_real, exp_real, rpow_real]
+  simp only [lit_real, npow_real, exp_real, rpow_real, eqb_exp_zero', cond_false]
   by_cases h : w > wp
   · have : Transc.gtb w wp = true := by rw [gtb_real]; exact h
     simp only [this, cond_true, if_pos h]; norm_num
